@@ -231,6 +231,9 @@ void Cleaner::DoCleanRule(const Rule* rule) {
   for (vector<Edge*>::iterator e = state_->edges_.begin();
        e != state_->edges_.end(); ++e) {
     if ((*e)->rule().name() == rule->name()) {
+      // Do not try to remove phony targets
+      if ((*e)->is_phony())
+        continue;
       for (vector<Node*>::iterator out_node = (*e)->outputs_.begin();
            out_node != (*e)->outputs_.end(); ++out_node) {
         Remove((*out_node)->path());
